@@ -1409,7 +1409,8 @@ class Config:  # pylint: disable=too-many-instance-attributes
             tree = field.include(self, formatter, filename, tree)
 
         for key, sub_schema in sub_schemas:
-            if tree.get(key):
+            # anything but a map is left for load_tree() to reject with a ValidationError
+            if tree.get(key) and isinstance(tree[key], dict):
                 tree[key] = self._process_includes(
                     sub_schema, tree[key], format_factory
                 )
